@@ -175,6 +175,10 @@ def classify(scn, viol):
         slow_user = scn.get("clocks", {}).get("usr0", {}).get("period", 0) * 2 > scn["core"]["clk_period_ps"]
         if pc.get("cd", "sys") != "sys" and (viol.get("blind_strobes") or [0])[0] > 0 and viol.get("upconverted") and slow_user:
             return "cdc-upconv-write-lead"
+        # cdc-write-overrun on the core: more write commands of the crossed port accepted by the crossbar and not yet strobed than
+        # the crossing's write-data FIFO (get_port's default depth 16) can hold, and a strobe that found no data
+        if pc.get("cd", "sys") != "sys" and (viol.get("blind_strobes") or [0])[0] > 0 and (viol.get("xbar_writes_in_flight_max") or [0])[0] > 16:
+            return "cdc-write-overrun"
         return None
     if viol.get("oracle") in ("wdata_not_valid_at_strobe", "wdata_sequence", "wdata_count", "final_image", "hang", "read_data") \
             and viol.get("max_writes_outstanding", 0) > viol.get("wdata_depth", 10 ** 9):
